@@ -1,5 +1,6 @@
 import HapModel.Model.NoRepl
 import HapModel.Model.Validate
+import HapModel.Model.Convert
 /-!
 # C14 — `--no_replacement` never copies the same stretch of a reference haplotype twice
 
@@ -55,5 +56,19 @@ theorem validate_rejects_small_panels (tol : Rat) (inp : Validate.Inputs) (n : I
   rcases hor with h1 | ⟨_, _, _, hpops⟩
   · rw [hb] at h1; cases h1
   · have := (hpops pop hp).2 hnr; omega
+
+/-- **what is registered as used is what is copied**: the stretches `_convert_haplotype` requests from
+    `_find_random_sample` for one haplotype on one chromosome are exactly its blocks' extents – the first from 0,
+    each next one from the previous block's end + 1, the k-th up to the k-th block end – hence pairwise disjoint
+    and without gaps; together with `request_keeps_disjoint` / `disjoint_after_any_run` no stretch of a reference
+    haplotype is handed out twice -/
+theorem requests_are_block_extents (hap : Array Seg) (c : Nat) (hs : Seg.SortedL hap.toList) :
+    (Convert.requests hap c).length = (Convert.chromSegs hap c).length ∧
+    (Convert.requests hap c).map (·.2) = (Convert.chromSegs hap c).map (·.endc) ∧
+    (Convert.requests hap c).Pairwise (fun a b => a.2 < b.1) ∧
+    (∀ k (hk : k + 1 < (Convert.requests hap c).length),
+      ((Convert.requests hap c)[k + 1]).1 = ((Convert.requests hap c)[k]'(by omega)).2 + 1) ∧
+    (∀ (h0 : 0 < (Convert.requests hap c).length), ((Convert.requests hap c)[0]).1 = 0) :=
+  Convert.requests_are_block_extents hap c hs
 
 end C14
